@@ -388,6 +388,8 @@ pub async fn run_client(w: Rc<World>, plan: Rc<Plan>) {
 
 pub fn start_senders(w: &Rc<World>, plan: &Rc<Plan>, sink: v3::MqttSink) {
     for (sidx, ops) in plan.senders.iter().enumerate() {
+        let slot = w.add_sender(ops.len());
+        debug_assert_eq!(slot, sidx);
         let (w, sink, ops) = (w.clone(), sink.clone(), ops.clone());
         ntex_util::spawn(sender_task(w, sidx, sink, ops));
     }
@@ -424,12 +426,14 @@ async fn sender_task(w: Rc<World>, sidx: usize, sink: v3::MqttSink, ops: Vec<App
                 Either::Left(Err(e)) => {
                     w.sender_op_done(sidx);
                     w.ev(Ev::OpDone { sender: sidx, op: opi, res: OpResult::Err(err_str(&e)) });
+                    w.sender_skip_next(sidx);
                     continue;
                 }
                 Either::Right(()) => {
                     w.ev(Ev::OpCancel { sender: sidx, op: opi });
                     w.sender_op_done(sidx);
                     w.ev(Ev::OpDone { sender: sidx, op: opi, res: OpResult::Cancelled });
+                    w.sender_skip_next(sidx);
                     continue;
                 }
             };
